@@ -109,6 +109,50 @@ def clamp_rule(ctx):
         raise AnalysisError(f"{C}: no slip-branch definition of {jz} found")
 
 
+def norm_agreement(ctx):
+    """Sphere.Jacobian is the derivative of Sphere.residual = y + radius * arg / |arg| only if it divides by the SAME norm |arg| (once in the unit
+    direction, once in the 1/|arg| factor).  Every divisor of the slip branch of both methods must be the plain Euclidean norm of the slip
+    argument: a clamped / regularised norm (max(norm, eps), norm + eps, sqrt(. + eps)) in one of them makes the direction non-unit and the
+    curvature factor 1/eps for tiny arguments, far away from the active-set boundary."""
+    rep = ctx.rep
+    sph = ctx.model.cls("Sphere", PX)
+    for m in ("residual", "Jacobian"):
+        fn = sph.methods.get(m)
+        if fn is None:
+            raise AnalysisError(f"Sphere.{m} vanished")
+        C = f"{PX}:Sphere.{m}"
+        loc = {}
+        for x in ast.walk(fn):
+            if isinstance(x, ast.Assign) and len(x.targets) == 1 and isinstance(x.targets[0], ast.Name):
+                loc.setdefault(x.targets[0].id, []).append(x.value)
+
+        def is_plain_norm(e, depth=0):
+            if isinstance(e, ast.Name) and len(loc.get(e.id, [])) == 1 and depth < 4:
+                return is_plain_norm(loc[e.id][0], depth + 1)
+            return isinstance(e, ast.Call) and (dotted(e.func) or "").split(".")[-1] == "norm" and len(e.args) == 1 and not e.keywords
+
+        def mentions_norm(e, depth=0):
+            for w in ast.walk(e):
+                if isinstance(w, ast.Call) and (dotted(w.func) or "").split(".")[-1] in ("norm", "sqrt"):
+                    return True
+                if isinstance(w, ast.Name) and len(loc.get(w.id, [])) == 1 and depth < 4 and mentions_norm(loc[w.id][0], depth + 1):
+                    return True
+            return False
+        n_ = 0
+        for w in ast.walk(fn):
+            if isinstance(w, ast.BinOp) and isinstance(w.op, ast.Div) and mentions_norm(w.right):
+                n_ += 1
+                if is_plain_norm(w.right):
+                    rep.ok("C27.R6", C, f"`{norm_src(w)[:60]}` divides by the plain norm of the slip argument")
+                else:
+                    d = w.right
+                    shown = norm_src(loc[d.id][0]) if isinstance(d, ast.Name) and len(loc.get(d.id, [])) == 1 else norm_src(d)
+                    rep.bad("C27.R6", C, w, f"`{norm_src(w)[:60]}` divides by `{shown[:60]}`, not by the plain norm of the slip argument that the other method uses: residual and Jacobian no "
+                            "longer belong to the same map (for |rho x - y| below the clamp the direction is not a unit vector and the factor 1/|arg| becomes 1/eps)", f"{PX}:{w.lineno}")
+        if n_ == 0:
+            raise AnalysisError(f"{C}: no division by the norm of the slip argument found")
+
+
 def estimate_dtype(ctx):
     """r_i = alpha / diag(W^T M^-1 W)_i is positive and finite for SPD M and full-column-rank W whatever number type W is written in.
     A buffer allocated with W's dtype truncates the real scaling factor alpha in (0, 2) to 0 or 1 for an integer-typed W (a hand-written
@@ -154,6 +198,8 @@ def estimate_dtype(ctx):
 
 def run(ctx):
     rep = ctx.rep
+    rep.rule("C27.R6", "Sphere.residual and Sphere.Jacobian normalise the slip argument with the same plain norm", 3)
+    norm_agreement(ctx)
     rep.rule("C27.R5", "the prox-parameter estimate for a non-empty W does not pass through a buffer typed by an argument's dtype", 1)
     estimate_dtype(ctx)
     rep.rule("C27.R1", "radius is non-negative and the same in all Sphere methods", 5)
@@ -333,4 +379,8 @@ NEUTRAL += [
     dict(id="c27-n-r5", canary=True, what="estimate_prox_parameter: single exit with a float default", file=PX,
          old="    cols = W.shape[1]\n    if cols > 0:\n        W = csc_array(W)\n        M_inv_W = spsolve(csc_array(M), W)\n        WT_M_inv_W = csc_array((W.T @ M_inv_W).reshape((cols, cols)))\n        return alpha / WT_M_inv_W.diagonal()\n    else:\n        return np.full(cols, alpha, dtype=W.dtype)\n",
          new="    cols = W.shape[1]\n    prox_r = np.full(cols, alpha, dtype=float)\n    if cols > 0:\n        W = csc_array(W)\n        M_inv_W = spsolve(csc_array(M), W)\n        WT_M_inv_W = csc_array((W.T @ M_inv_W).reshape((cols, cols)))\n        prox_r = prox_r / WT_M_inv_W.diagonal()\n    return prox_r\n"),
+]
+MUTANTS += [
+    dict(id="c27-r6-seed", canary=True, what="[seeded by sub-agent] Sphere.Jacobian clamps the norm of the slip argument by machine epsilon", file=PX,
+         old="            norm_arg = np.linalg.norm(arg)\n", new="            norm_arg = max(np.linalg.norm(arg), np.finfo(float).eps)\n", expect="C27.R6"),
 ]
